@@ -256,7 +256,7 @@ var spaceInsignificant = setOf(`address article aside blockquote body center det
 var rawish = setOf(`script style textarea title iframe xmp noembed noframes noscript plaintext pre listing svg math`)
 
 var booleanAttrs = setOf(`allowfullscreen async autofocus autoplay checked controls default defer disabled formnovalidate inert ismap itemscope loop multiple muted nomodule novalidate open playsinline readonly required reversed selected
- shadowrootclonable shadowrootdelegatesfocus shadowrootserializable compact declare hidden nohref noresize noshade nowrap scoped seamless sortable truespeed typemustmatch allowpaymentrequest`)
+ shadowrootclonable shadowrootdelegatesfocus shadowrootserializable compact declare nohref noresize noshade nowrap scoped seamless sortable truespeed typemustmatch allowpaymentrequest`)
 
 var urlAttrs = setOf(`action archive background cite classid codebase data formaction href icon itemid itemtype longdesc manifest ping poster profile src usemap xmlns`)
 
